@@ -243,6 +243,24 @@ func init() {
 	add("C13", ruleR13_6)
 	add("C07", ruleR13_6)
 	add("C09", ruleR09_9, ruleR09_10)
+	// round 5 (DESIGN.md section 15)
+	add("C01", ruleR03_4)
+	add("C02", ruleR05_2)
+	add("C04", ruleR15_5)
+	add("C05", ruleR09_3, ruleR09_7)
+	add("C06", ruleR05_4)
+	add("C07", ruleR07_4)
+	add("C08", ruleR05_4, ruleR06_5, ruleR07_4)
+	add("C10", ruleR09_8)
+	add("C11", ruleR15_4)
+	add("C14", ruleR04_7, ruleR03_4)
+	add("C15", ruleR09_3, ruleR09_7)
+	add("C16", ruleR05_2)
+	add("C18", ruleR13_5, ruleR18_4)
+	add("C19", ruleR05_2)
+	add("C20", ruleR09_3, ruleR09_7, ruleR13_4, ruleR07_4)
+	add("C03", ruleR03_13, ruleR09_2)
+	add("C09", ruleR10_7)
 	add("C03", ruleR03_12)
 	add("C13", ruleR03_12)
 	add("C16", ruleR03_12)
